@@ -503,6 +503,19 @@ func H_C15_fresh_directory() {
 		verifAssert(m == 0600, "C15.fresh-directory.file-has-0600-when-unset")
 	}
 	verifAssert(verifFDContent(s.f) == "<e>\n", "C15.fresh-directory.event-written")
+	// "created on demand" holds every time a file is opened: the directory may have been cleaned away meanwhile
+	if nondetBool() {
+		os.RemoveAll(dir)
+		verifAssert(s.Reopen() == nil, "C15.fresh-directory.reopen-recreates-the-directory")
+		_, err = s.Process(context.Background(), &Event{Type: "t", Formatted: map[string][]byte{"custom": []byte("<e2>\n")}})
+		verifAssert(err == nil && s.f != nil, "C15.fresh-directory.write-after-recreation")
+		if s.f != nil {
+			verifAssert(verifDirMode(dir) == 0700, "C15.fresh-directory.recreated-with-0700")
+			c, ok := readFile(s.f.Name())
+			verifAssert(ok && c == "<e2>\n", "C15.fresh-directory.event-in-the-recreated-directory")
+		}
+		verifReach("C15.fresh-directory.recreated")
+	}
 	verifReach("C15.fresh-directory.end")
 }
 
